@@ -655,6 +655,17 @@ pub struct UdpClient {
     /// SOCKS5 only: which of the two UDP services each datagram is addressed to (index modulo length; empty = always the first)
     #[serde(default)]
     pub targets: Vec<u8>,
+    /// keep the socket (and the SOCKS5 association with its control connection) open this long after the last exchange
+    #[serde(default)]
+    pub hold_ms: u16,
+}
+
+/// many UDP clients that stay open at the same time, and TCP connections made while they are
+#[derive(Clone, Debug, Hash, PartialEq, Eq, Serialize, Deserialize)]
+pub struct CrowdCase {
+    pub n_udp: u16,
+    pub socks5: bool,
+    pub tcp: Vec<Conn>,
 }
 
 #[derive(Clone, Debug, Hash, PartialEq, Eq, Serialize, Deserialize)]
@@ -662,7 +673,7 @@ pub struct UdpCase {
     pub clients: Vec<UdpClient>,
 }
 
-async fn run_udp_client(f: &'static Fx, idx: usize, c: UdpClient) -> Result<(), (String, String)> {
+async fn run_udp_client(f: &'static Fx, idx: usize, c: UdpClient, hold_until: Option<Arc<std::sync::atomic::AtomicBool>>) -> Result<(), (String, String)> {
     let e = |sig: &str, msg: String| (sig.to_string(), format!("udp client {idx} (socks5={}, atyp={}): {msg}", c.socks5, c.atyp));
     let sock = UdpSocket::bind("127.0.0.1:0").await.map_err(|x| e("c01-harness", x.to_string()))?;
     let me = (TOKEN.fetch_add(1, Ordering::Relaxed) as u32) << 8;
@@ -780,7 +791,70 @@ async fn run_udp_client(f: &'static Fx, idx: usize, c: UdpClient) -> Result<(), 
             return Err(e("c01-udp-lost", format!("{last} after three attempts")));
         }
     }
+    if c.hold_ms > 0 {
+        tokio::time::sleep(Duration::from_millis(c.hold_ms as u64)).await;
+    }
+    if let Some(flag) = hold_until {
+        // stay open until released (at most 40 s)
+        for _ in 0..4000 {
+            if flag.load(Ordering::SeqCst) {
+                break;
+            }
+            tokio::time::sleep(Duration::from_millis(10)).await;
+        }
+    }
+    drop(_ctrl);
     Ok(())
+}
+
+/// n UDP clients (SOCKS5 associations or users of the plain UDP remote) exchange one datagram each and stay open; while they are,
+/// TCP connections through several entry kinds must be served like direct ones; afterwards everything closes
+pub fn check_crowd(case: &CrowdCase) -> Outcome {
+    let f = match fx() {
+        Ok(f) => f,
+        Err(e) => return Outcome::inconclusive(format!("fixture: {e}")),
+    };
+    let r = rt().block_on(async {
+        // the UDP clients stay open until the TCP connections are done: a TCP connection that can only proceed once UDP clients
+        // go away runs into its 20 s limit
+        let release = Arc::new(std::sync::atomic::AtomicBool::new(false));
+        let udp: Vec<_> = (0..case.n_udp as usize)
+            .map(|i| tokio::spawn(run_udp_client(f, i, UdpClient { socks5: case.socks5, atyp: (i % 3) as u8, sizes: vec![16], replies: 1, targets: vec![], hold_ms: 0 }, Some(release.clone()))))
+            .collect();
+        // the exchanges take well under a second
+        tokio::time::sleep(Duration::from_millis(1500)).await;
+        let tcp: Vec<_> = case.tcp.iter().cloned().map(|c| tokio::spawn(run_conn(f, c))).collect();
+        let mut first = None;
+        for h in tcp {
+            match h.await {
+                Ok(Ok(())) => {}
+                Ok(Err((sig, msg))) => {
+                    first.get_or_insert((sig, format!("while {} {} were open: {msg}", case.n_udp, if case.socks5 { "SOCKS5 UDP associations" } else { "plain UDP clients" })));
+                }
+                Err(e) => {
+                    first.get_or_insert(("c01-harness-panic".to_string(), e.to_string()));
+                }
+            }
+        }
+        release.store(true, Ordering::SeqCst);
+        for h in udp {
+            match h.await {
+                Ok(Ok(())) => {}
+                Ok(Err(e)) => {
+                    first.get_or_insert(e);
+                }
+                Err(e) => {
+                    first.get_or_insert(("c01-harness-panic".to_string(), e.to_string()));
+                }
+            }
+        }
+        first
+    });
+    match r {
+        Some((sig, msg)) if sig == "c01-harness" => Outcome::inconclusive(msg),
+        Some((sig, msg)) => Outcome::violation(sig, msg),
+        None => Outcome::pass(true, vec!["many-udp-clients-open-with-tcp"]),
+    }
 }
 
 pub fn check_udp(case: &UdpCase) -> Outcome {
@@ -789,7 +863,7 @@ pub fn check_udp(case: &UdpCase) -> Outcome {
         Err(e) => return Outcome::inconclusive(format!("fixture: {e}")),
     };
     let r = rt().block_on(async {
-        let hs: Vec<_> = case.clients.iter().cloned().enumerate().map(|(i, c)| tokio::spawn(run_udp_client(f, i, c))).collect();
+        let hs: Vec<_> = case.clients.iter().cloned().enumerate().map(|(i, c)| tokio::spawn(run_udp_client(f, i, c, None))).collect();
         let mut first = None;
         for h in hs {
             match h.await {
@@ -847,7 +921,7 @@ fn conn() -> impl Strategy<Value = Conn> {
 
 pub fn run(ctx: &Ctx, rep: &mut Report) {
     rep.rule = "one real client (client_main_inner) and one real server (run_listener) on loopback with remotes for every entry kind. TCP cases = 1-8 concurrent connections, each: entry {fixed TCP remote, Unix-socket remote, SOCKS4, SOCKS4a by name, SOCKS5 IPv4/domain/IPv6, HTTP CONNECT} x payload sizes each way 0..3 MB in generated chunkings/flushes x close order {client half-close first, target half-close first, simultaneous, target reset, target port closed}, plus a stalled-consumer family (40+ MB one way while the receiving end does not read until the sender has been blocked for 300 ms, so that the sending bridge exhausts its flow-control window); \
-                content is a function of (connection token, direction, offset). UDP cases = 1-6 concurrent local sockets (plain UDP remote or SOCKS5 association with IPv4/domain/IPv6 target addresses, one association addressing two UDP services on the same host), datagram sizes {0,1,2,3,4,512,1400,8000,60000}, target replying 0-3 tagged copies. \
+                content is a function of (connection token, direction, offset). Crowd cases = 20/70/140 UDP clients (SOCKS5 associations or plain) held open at once while TCP connections through four entry kinds are made. UDP cases = 1-6 concurrent local sockets (plain UDP remote or SOCKS5 association with IPv4/domain/IPv6 target addresses, one association addressing two UDP services on the same host), datagram sizes {0,1,2,3,4,512,1400,8000,60000}, target replying 0-3 tagged copies. \
                 Oracle: both directions byte-exact and complete with EOF propagated in each close order, closed (not hanging) on target reset/refusal (20 s limit, hang verdicts confirmed by a re-run); UDP replies only on the socket of the originating client, from the address it sent to, payload unmodified, no duplicates, SOCKS5 replies prefixed by a header an independent RFC 1928 parser accepts; \
                 loss tolerated only after three failed exchanges. Non-trivial = bidirectional traffic with a half-close, or >= 2 concurrent clients, or a UDP payload < 4 bytes. Distinct = distinct case value."
         .into();
@@ -886,13 +960,27 @@ pub fn run(ctx: &Ctx, rep: &mut Report) {
         },
         check_tcp,
     );
+    // counts the random cases do not reach: 20 / 70 / 140 UDP clients open at once (SOCKS5 associations or plain), TCP meanwhile
+    ctx.enumerate(
+        rep,
+        "crowd",
+        ctx.tier.pick(4, 6),
+        2,
+        |i| {
+            let n_udp = [70u16, 70, 20, 140, 140, 20][(i % 6) as usize];
+            let socks5 = i % 2 == 0;
+            let mk = |entry| Conn { entry, order: Order::ClientHalfCloseFirst, n_c2t: 20_000, n_t2c: 9_000, chunk_c: 4096, chunk_t: 4096, flush_every: 0 };
+            CrowdCase { n_udp, socks5, tcp: vec![mk(Entry::Socks5V4), mk(Entry::TcpRemote), mk(Entry::HttpConnect), mk(Entry::UnixRemote)] }
+        },
+        check_crowd,
+    );
     ctx.prop(
         rep,
         "udp",
         ctx.tier.pick(480, 10_000),
         20,
         || {
-            let client = (any::<bool>(), 0u8..3, prop::collection::vec(prop::sample::select(vec![0u32, 1, 2, 3, 4, 7, 512, 1400, 8000, 60_000]), 1..5), 0u8..4, prop::collection::vec(0u8..2, 0..4)).prop_map(|(socks5, atyp, sizes, replies, targets)| UdpClient { socks5, atyp, sizes, replies, targets });
+            let client = (any::<bool>(), 0u8..3, prop::collection::vec(prop::sample::select(vec![0u32, 1, 2, 3, 4, 7, 512, 1400, 8000, 60_000]), 1..5), 0u8..4, prop::collection::vec(0u8..2, 0..4)).prop_map(|(socks5, atyp, sizes, replies, targets)| UdpClient { socks5, atyp, sizes, replies, targets, hold_ms: 0 });
             prop::collection::vec(client, 1..=6).prop_map(|clients| UdpCase { clients })
         },
         check_udp,
